@@ -171,7 +171,7 @@ def rand_x(rng, n):
         el = rng.choice(("C", "C", "H", "H", "O", "N"))
         chg = rng.choice((0, 0, 0, 1, -1))
         chh = chg if rng.random() < 0.7 else rng.choice((0, 1, -1))
-        tg = [el, rng.random() < 0.2, rng.choice((0, 1, 2)), chg, sorted(rng.choice(("C", "H", "O")) for _ in range(rng.randint(0, 2)))]
+        tg = [el, rng.random() < 0.2, rng.choice((0, 1, 2)), chg, [rng.choice(("O", "H", "C")) for _ in range(rng.randint(0, 3))]]   # not sorted
         th = [el, tg[1], rng.choice((0, 1, 2)), chh, list(tg[4])]
         a = {"element": el, "charge": chg, "atom_map": i, "typesGH": [tg, th]}
         if extras:
